@@ -14,6 +14,7 @@ import (
 	"math"
 	"math/rand"
 	"runtime"
+	"sort"
 	"strconv"
 	"strings"
 	"sync"
@@ -174,6 +175,9 @@ type fakeStore struct {
 	mu       sync.Mutex
 	lastReq  *storepb.SeriesRequest
 	cutShort bool // a stream of this store saw its context cancelled before it had delivered everything
+	// label APIs: what a healthy store answers; a store with a failure point answers with an error
+	labelNames, labelValues []string
+	lastWithout             []string
 }
 
 func (s *fakeStore) Series(ctx context.Context, req *storepb.SeriesRequest, _ ...grpc.CallOption) (storepb.Store_SeriesClient, error) {
@@ -188,18 +192,26 @@ func (s *fakeStore) Series(ctx context.Context, req *storepb.SeriesRequest, _ ..
 	return &fakeSeriesClient{ctx: ctx, st: s, msgs: s.msgs(), rnd: rand.New(rand.NewSource(s.seed + int64(n)))}, nil
 }
 
-func (s *fakeStore) LabelNames(context.Context, *storepb.LabelNamesRequest, ...grpc.CallOption) (*storepb.LabelNamesResponse, error) {
+func (s *fakeStore) LabelNames(_ context.Context, r *storepb.LabelNamesRequest, _ ...grpc.CallOption) (*storepb.LabelNamesResponse, error) {
 	s.mu.Lock()
 	s.lnCalls++
+	s.lastWithout = r.WithoutReplicaLabels
 	s.mu.Unlock()
-	return &storepb.LabelNamesResponse{}, nil
+	if s.fail.kind != "none" {
+		return nil, errors.Errorf("injected label names failure of %s", s.name)
+	}
+	return &storepb.LabelNamesResponse{Names: s.labelNames}, nil
 }
 
-func (s *fakeStore) LabelValues(context.Context, *storepb.LabelValuesRequest, ...grpc.CallOption) (*storepb.LabelValuesResponse, error) {
+func (s *fakeStore) LabelValues(_ context.Context, r *storepb.LabelValuesRequest, _ ...grpc.CallOption) (*storepb.LabelValuesResponse, error) {
 	s.mu.Lock()
 	s.lvCalls++
+	s.lastWithout = r.WithoutReplicaLabels
 	s.mu.Unlock()
-	return &storepb.LabelValuesResponse{}, nil
+	if s.fail.kind != "none" {
+		return nil, errors.Errorf("injected label values failure of %s", s.name)
+	}
+	return &storepb.LabelValuesResponse{Values: s.labelValues}, nil
 }
 
 type fakeSeriesClient struct {
@@ -299,6 +311,37 @@ func buildStores(w map[string]any, pl *payloads, sseed int64) ([]store.Client, [
 			flush()
 			return out
 		}
+		// label APIs of a well-behaved store: the names of its series (replica labels it strips
+		// itself left out), the values of label n001
+		nameSet, valSet := map[string]bool{}, map[string]bool{}
+		strips := vt.Bool(st["strips"])
+		for _, fv := range frames {
+			fr := vt.Map(fv)
+			if k := vt.Str(fr["k"]); k == "h" || k == "w" {
+				continue
+			}
+			for _, pv := range vt.List(fr["ls"]) {
+				pr := vt.Ints(pv)
+				drop := false
+				for _, wn := range vt.Ints(w["without"]) {
+					drop = drop || (strips && wn == pr[0])
+				}
+				if !drop {
+					nameSet[labelName(pr[0])] = true
+				}
+				if pr[0] == 1 {
+					valSet[labelValue(pr[1])] = true
+				}
+			}
+		}
+		for n := range nameSet {
+			fs.labelNames = append(fs.labelNames, n)
+		}
+		for v := range valSet {
+			fs.labelValues = append(fs.labelValues, v)
+		}
+		sort.Strings(fs.labelNames)
+		sort.Strings(fs.labelValues)
 		fakes = append(fakes, fs)
 		clients = append(clients, storetestutil.TestClient{
 			StoreClient: fs, Name: fs.name, MinTime: math.MinInt64, MaxTime: math.MaxInt64,
